@@ -1,6 +1,6 @@
 CONSTANTS
   MaxLen = 4
-  Alphabet = {"L","D","+","-","*","/","sp","col","eq","zhu"}
+  Alphabet = {"L","D","+","-","*","/","%","sp","col","eq","zhu"}
 SPECIFICATION Spec
 INVARIANTS SpansOK Covers Deterministic Emit
 PROPERTY Progress
